@@ -217,4 +217,121 @@ theorem cut_spec (a b : Nat) (hab : a ≤ b) : ∀ (ts : List Text) (s : Nat) (x
             exact h2)
           simp [chunksConcat, h1, hrest, hx]
 
+/-- the converse of `slice_across`: slices of the two parts that meet at the seam join to a slice of the whole -/
+theorem slice_join (t r : Text) (a b : Nat) (x1 x2 : Text) (ha : a ≤ blen t) (hb : blen t ≤ b)
+    (h1 : sliceBytes t a (blen t) = some x1) (h2 : sliceBytes r 0 (b - blen t) = some x2) :
+    sliceBytes (t ++ r) a b = some (x1 ++ x2) := by
+  by_cases hlt : a < blen t
+  · unfold sliceBytes at h1 h2 ⊢
+    have hab : a ≤ b := by omega
+    simp only [hab, ↓reduceIte, ha, Nat.zero_le, dropBytes, Nat.sub_zero] at h1 h2 ⊢
+    rw [C12.dropBytes_lt_append t r a hlt]
+    cases hd : dropBytes t a with
+    | none => simp [hd] at h1
+    | some y =>
+      simp only [hd, Option.map_some] at h1 ⊢
+      have hy := blen_dropBytes t a y hd
+      have e1 : blen t - a = blen y := by omega
+      rw [e1, takeBytes_all] at h1
+      have hyx : y = x1 := Option.some.inj h1
+      subst hyx
+      rw [takeBytes_ge_append y r (b - a) (by omega)]
+      have e2 : b - a - blen y = b - blen t := by omega
+      rw [e2, h2]
+      rfl
+  · have ha' : a = blen t := by omega
+    subst ha'
+    have : x1 = [] := by
+      unfold sliceBytes at h1
+      simp only [Nat.le_refl, ↓reduceIte, dropBytes_all, Nat.sub_self, takeBytes] at h1
+      exact (Option.some.inj h1).symm
+    subst this
+    rw [slice_second t r (blen t) b (Nat.le_refl _) hb]
+    simpa using h2
+
+theorem chunksConcat_cons_some {c : Option Text} {cs : List (Option Text)} {x : Text}
+    (h : chunksConcat (c :: cs) = some x) : ∃ x1 xr, c = some x1 ∧ chunksConcat cs = some xr ∧ x = x1 ++ xr := by
+  cases c with
+  | none => simp [chunksConcat] at h
+  | some x1 =>
+    simp only [chunksConcat] at h
+    cases hr : chunksConcat cs with
+    | none => simp [hr] at h
+    | some xr =>
+      simp only [hr, Option.map_some, Option.some.injEq] at h
+      exact ⟨x1, xr, rfl, rfl, h.symm⟩
+
+/-- **and conversely**: if every cut exists (no chunk panics) and the range ends inside the text, the slice of the
+    concatenated text exists and is the concatenation of the cuts — so a range with an end inside a character has a
+    panicking chunk -/
+theorem cut_spec_conv (a b : Nat) (hab : a ≤ b) : ∀ (ts : List Text) (s : Nat) (x : Text),
+    chunksConcat (cut a b s ts) = some x → b ≤ s + blen ts.flatten →
+    sliceBytes ts.flatten (a - s) (b - s) = some x := by
+  intro ts
+  induction ts with
+  | nil =>
+    intro s x h hb
+    simp only [cut, chunksConcat, Option.some.injEq] at h
+    subst h
+    simp only [List.flatten_nil, blen_nil, Nat.add_zero] at hb ⊢
+    have e1 : a - s = 0 := by omega
+    have e2 : b - s = 0 := by omega
+    rw [e1, e2]
+    unfold sliceBytes
+    simp [dropBytes, takeBytes]
+  | cons t ts ih =>
+    intro s x h hb
+    simp only [List.flatten_cons, blen_append] at hb ⊢
+    simp only [cut] at h
+    by_cases hbs : b < s
+    · have hskip : min b (s + blen t) < max a s := by omega
+      simp only [hskip, ↓reduceIte, List.nil_append] at h
+      have := ih (s + blen t) x h (by omega)
+      have e3 : a - (s + blen t) = 0 := by omega
+      have e4 : b - (s + blen t) = 0 := by omega
+      rw [e3, e4] at this
+      have hx : x = [] := by
+        unfold sliceBytes at this
+        simpa [dropBytes, takeBytes] using this.symm
+      subst hx
+      have e1 : a - s = 0 := by omega
+      have e2 : b - s = 0 := by omega
+      rw [e1, e2]
+      unfold sliceBytes
+      simp [dropBytes, takeBytes]
+    · by_cases hea : s + blen t < a
+      · have hskip : min b (s + blen t) < max a s := by omega
+        simp only [hskip, ↓reduceIte, List.nil_append] at h
+        have := ih (s + blen t) x h (by omega)
+        rw [slice_second t ts.flatten (a - s) (b - s) (by omega) (by omega)]
+        have e3 : a - s - blen t = a - (s + blen t) := by omega
+        have e4 : b - s - blen t = b - (s + blen t) := by omega
+        rw [e3, e4]
+        exact this
+      · have hpres : ¬ min b (s + blen t) < max a s := by omega
+        simp only [hpres, ↓reduceIte, List.singleton_append] at h
+        obtain ⟨x1, xr, hc, hrest, hx⟩ := chunksConcat_cons_some h
+        have elo : max a s - s = a - s := by omega
+        by_cases hbe : b ≤ s + blen t
+        · have ehi : min b (s + blen t) - s = b - s := by omega
+          rw [elo, ehi] at hc
+          have := ih (s + blen t) xr hrest (by omega)
+          have e3 : a - (s + blen t) = 0 := by omega
+          have e4 : b - (s + blen t) = 0 := by omega
+          rw [e3, e4] at this
+          have hxr : xr = [] := by
+            unfold sliceBytes at this
+            simpa [dropBytes, takeBytes] using this.symm
+          subst hxr
+          rw [slice_first t ts.flatten (a - s) (b - s) (by omega) (by omega), hc, hx]
+          simp
+        · have ehi : min b (s + blen t) - s = blen t := by omega
+          rw [elo, ehi] at hc
+          have := ih (s + blen t) xr hrest (by omega)
+          have e3 : a - (s + blen t) = 0 := by omega
+          have e4 : b - (s + blen t) = b - s - blen t := by omega
+          rw [e3, e4] at this
+          rw [hx]
+          exact slice_join t ts.flatten (a - s) (b - s) x1 xr (by omega) (by omega) hc this
+
 end Cst
